@@ -103,20 +103,21 @@ class LiveSet:
             self._live_ops.add(op)
 
     def propagate_op_liveness(self, op: Operation):
-        for region in op.regions:
-            self.propagate_region_liveness(region)
-
-        if self.is_live(op):
-            return
-
-        if not would_be_trivially_dead(op):
-            self.set_live(op)
-            return
-
-        if any(
-            self.is_live(use.operation) for result in op.results for use in result.uses
+        if not self.is_live(op) and (
+            not would_be_trivially_dead(op)
+            or any(
+                self.is_live(use.operation)
+                for result in op.results
+                for use in result.uses
+            )
         ):
             self.set_live(op)
+
+        # Operations nested in a dead operation are erased with it, so they only keep
+        # the values they use alive once the enclosing operation is known to be live.
+        if self.is_live(op):
+            for region in op.regions:
+                self.propagate_region_liveness(region)
 
     def propagate_region_liveness(self, region: Region):
         first = region.first_block
